@@ -3,6 +3,8 @@
    All statements are about Gen/Sched.v, regenerated from /repo's schedulers on every run. *)
 From Coq Require Import ZArith Reals List.
 From OV Require Import Base.Num Base.NumR Base.NumZ Base.Py Model.SchedState Gen.Sched Proofs.SchedP Proofs.SchedR.
+From OV Require Import Model.OptimState Model.OptimRef Gen.Optim Proofs.OptimSM Proofs.OptimTrace Proofs.OptimMore.
+Import ListNotations.
 
 (* construction (last_epoch = -1) leaves the scheduled value unchanged, k = 0 *)
 Theorem C17_exponential_construct_noop {T} {N : Num T} (s0 : ss T) v g :
@@ -81,6 +83,23 @@ Theorem C17_clip_lambda_restore_next {T} {N : Num T} (s s' : ss T) :
   clip_step clip_lambda_get (clip_load_state_dict s' (clip_state_dict s)) = clip_step clip_lambda_get s.
 Proof. exact (clip_lambda_restore_next s s'). Qed.
 
+(* the value in force is the one used: after a scheduler wrote noise_multiplier := nm' and max_grad_norm := c'
+   (what scheduler.step() does to the optimizer), the next optimizer step -- in the code generated from
+   optimizer.py -- draws its noise with std nm' * c' and hands the accountant nm' (clipping with c' is the
+   clip_items (o_mgn s) of the generated clip_and_accumulate). *)
+Theorem C17_scheduled_value_is_used {T} {N : Num T} (neqb_sound : forall a b : T, neqb a b = true -> a = b) (s : ost T) nm' c' :
+  o_has_hook s = true -> o_acc s <> AccGDP -> runs_pos (o_hist s) ->
+  let s1 := sstate (exec (sstate (exec s (SetNm nm'))) (SetC c')) in
+  let r := exec s1 Step in
+  let s' := sstate r in
+  exists nz, Forall (noise_ev (nmul nm' c')) nz /\
+   ((o_events s' = o_events s ++ nz /\ o_hist s' = o_hist s)
+   \/
+   (exists k og, r = SOk s' tt /\
+      o_events s' = o_events s ++ nz ++ [EAccount nm' (nmul (o_rate s) (nofZ k)); EInner og] /\
+      expand (o_hist s') = expand (o_hist s) ++ [(nm', nmul (o_rate s) (nofZ k))])).
+Proof. exact (scheduled_value_used neqb_sound s nm' c'). Qed.
+
 (* non-vacuity: a concrete scheduler meeting the hypotheses, run on the Z instance *)
 Example C17_nonvacuous :
   let s1 := mkss 0%Z 3%Z 2%Z 5%Z (fun k => k) 5%Z in
@@ -102,6 +121,7 @@ Print Assumptions C17_clip_step_closed_form.
 Print Assumptions C17_clip_lambda_closed_form.
 Print Assumptions C17_iter_is_power_r.
 Print Assumptions C17_iter_is_power_l.
+Print Assumptions C17_scheduled_value_is_used.
 Print Assumptions C17_restore_exact_partial.
 Print Assumptions C17_clip_restore_exact_partial.
 Print Assumptions C17_lambda_restore_next.
